@@ -47,3 +47,144 @@ Theorem C11_listen_never_accepts : forall (A : Type) (f : fdl) (now : Z) (w : wo
    exists l, (f_lba f = Some l \/ (f_lba f = None /\ l = now)) /\ token_lost_timeout (f_p f) <= Z.abs (now - l)).
 Proof. exact do_listen_token_never_accepts. Qed.
 Print Assumptions C11_listen_never_accepts.
+
+(* ========================================================================================== *)
+(* Supervision, retry, heard-successor rule, second offer (proofs: Proofs/C11Proofs.v).
+   All theorems are about whole polls (`poll`), for ALL station states, parameters, inputs, times and
+   applications unless a hypothesis says otherwise.
+   `slot_expired f now pin` is the boolean that check_slot_expired computes in that poll: PHY not
+   transmitting, `now` after the recorded end of bus activity, and
+   now > last_bus_activity + slot time, where new bytes in the receive buffer count as activity at `now`. *)
+From PB Require Import FdlTables Phy C11Proofs.
+
+(* C11_supervise (1): a poll in PassToken transmits nothing (PHY busy / synchronisation pause), or a GAP
+   poll, or the token to NS = the successor of its ring view; after the token transmission the station
+   is in CheckTokenPass with the same attempt label - or uses the token itself when its (updated) ring
+   view says NS = TS. *)
+Theorem C11_supervise : forall (A : Type) (ops : app_ops A) (f : fdl) (now : Z) (pin : phy_in) (apps : list A)
+                               (f' : fdl) (o : phy_out) (a : list A) (c : list call) (dg : bool) (att : attempt),
+  f_state f = PassToken dg att -> poll ops f now pin apps = Ok (f', o, a, c) ->
+  a = apps /\ c = [] /\ rx_left o = rx pin /\ f_p f' = f_p f /\
+  ((tx o = None /\ f_state f' = PassToken dg att /\ f_ring f' = f_ring f) \/
+   (exists addr, dg = true /\ tx o <> None /\ f_state f' = AwaitStatusResponse addr /\ f_ring f' = f_ring f) \/
+   (exists r', witness (f_ring f) (ts f) (r_ns (f_ring f)) = Ok r' /\ f_ring f' = r' /\
+               tx o = Some (encode_token (r_ns (f_ring f)) (ts f)) /\
+               f_state f' = if r_ns r' =? ts f then UseToken now None false else CheckTokenPass att)).
+Proof. exact pass_token_poll. Qed.
+Print Assumptions C11_supervise.
+
+(* C11_supervise (2): in CheckTokenPass the station transmits again only in a poll in which the slot
+   timer has run out. *)
+Theorem C11_supervise_silent_until_slot : forall (A : Type) (ops : app_ops A) (f : fdl) (now : Z) (pin : phy_in)
+    (apps : list A) (f' : fdl) (o : phy_out) (a : list A) (c : list call) (att : attempt),
+  f_state f = CheckTokenPass att -> poll ops f now pin apps = Ok (f', o, a, c) ->
+  tx o <> None -> slot_expired f now pin = true.
+Proof. exact supervise_tx_only_expired. Qed.
+Print Assumptions C11_supervise_silent_until_slot.
+
+(* what slot_expired means for non-negative slot times (every builder-valid parameter set) *)
+Theorem C11_slot_expired_meaning : forall (f : fdl) (now : Z) (pin : phy_in), 0 <= slot_time (f_p f) ->
+  (slot_expired f now pin = true <->
+   tx_busy pin = false /\ (length (rx pin) <= f_pending f)%nat /\
+   exists l, f_lba f = Some l /\ l + slot_time (f_p f) < now).
+Proof. exact slot_expired_iff. Qed.
+Print Assumptions C11_slot_expired_meaning.
+
+(* The complete behaviour of a poll in CheckTokenPass.  Slot timer run out: attempts First and Second
+   are followed by a retry to the same ring view (table check_pass_next), after attempt Third
+   remove_station NS is applied and the pass goes to the new NS of the reduced ring view (UseToken when
+   that is TS itself); `tx o = None` in this branch only when the synchronisation pause after the last
+   bus activity is longer than the slot time.  Otherwise nothing is transmitted, the ring view changes
+   by witnessed passes only, and the station waits on or has heard a telegram. *)
+Theorem C11_check_pass_poll : forall (A : Type) (ops : app_ops A) (f : fdl) (now : Z) (pin : phy_in) (apps : list A)
+                                     (f' : fdl) (o : phy_out) (a : list A) (c : list call) (att : attempt),
+  f_state f = CheckTokenPass att -> poll ops f now pin apps = Ok (f', o, a, c) ->
+  a = apps /\ c = [] /\ f_p f' = f_p f /\
+  if slot_expired f now pin then
+    rx_left o = rx pin /\
+    exists r1, (if check_pass_removes att then remove_station (f_ring f) (r_ns (f_ring f)) = Ok r1 else r1 = f_ring f) /\
+      ((tx o = None /\ f_state f' = PassToken false (check_pass_next att) /\ f_ring f' = r1) \/
+       (exists r', witness r1 (ts f) (r_ns r1) = Ok r' /\ f_ring f' = r' /\ tx o = Some (encode_token (r_ns r1) (ts f)) /\
+                   f_state f' = if r_ns r' =? ts f then UseToken now None false else CheckTokenPass (check_pass_next att)))
+  else
+    tx o = None /\ ring_witnessed (f_ring f) (f_ring f') /\
+    (if tx_busy pin || predicted f now then f_state f' = CheckTokenPass att /\ f_ring f' = f_ring f /\ rx_left o = rx pin
+     else match DecodeSpec.decode_spec (rx pin) with
+          | Accept _ _ => heard_kind (f_state f')
+          | Reject => f_state f' = CheckTokenPass att /\ f_ring f' = f_ring f /\ rx_left o = []
+          | NeedMore => f_state f' = CheckTokenPass att /\ f_ring f' = f_ring f /\ rx_left o = rx pin
+          end).
+Proof. exact check_pass_poll. Qed.
+Print Assumptions C11_check_pass_poll.
+
+(* C11_retry_discipline: history theorem.  Over ANY run of polls (any inputs, times, applications) from
+   ANY station state f0 whose attempt label agrees with the initial ghost count c0 (ghost_ok; e.g. any
+   state outside PassToken / CheckTokenPass with c0 = 0), with the ghost counter of token transmissions
+   of the current hand-over advanced by observation only (ghost_next), every poll satisfies retry_step_ok:
+   - the count never exceeds three;
+   - while supervising (CheckTokenPass att) the count equals the attempt label (1, 2, 3); when the slot
+     timer has run out the station retries on the unchanged ring view if the count is below three, and
+     applies remove_station NS exactly if the count is three, then passes to the new NS, or keeps the
+     token (UseToken) if the new NS is TS; when the slot timer has not run out nothing is transmitted
+     and the ring view changes by witnessed passes only (no removal);
+   - in PassToken the ring view changes at most by witnessing the own pass. *)
+Theorem C11_retry_discipline : forall (A : Type) (ops : app_ops A) (ins : list (Z * phy_in)) (f0 : fdl)
+                                      (apps0 : list A) (c0 : nat) (steps : list step_rec),
+  ghost_ok c0 f0 -> run_polls ops f0 apps0 ins = Ok steps -> retry_ok c0 steps.
+Proof. exact retry_discipline. Qed.
+Print Assumptions C11_retry_discipline.
+
+(* non-vacuity: a freshly created station satisfies ghost_ok with count 0 ... *)
+Example C11_ghost_initial : forall p f, fdl_new p = Ok f -> ghost_ok 0 f.
+Proof.
+  intros p f H. unfold fdl_new in H. destruct (negb _); [discriminate H|]. destruct (negb _); [discriminate H|].
+  destruct (ring_new _); try discriminate H. injection H as <-. reflexivity.
+Qed.
+(* ... and a concrete run: station 1 passes to 5, nobody answers: three transmissions to 5, then 5 is
+   removed and the station, alone, sends the token to itself and uses it (polls 4 and 5 come too early) *)
+Example C11_retry_example :
+  ex_trace = Ok [(KCheckTokenPass, Some [220; 5; 1], 1%nat); (KCheckTokenPass, Some [220; 5; 1], 2%nat);
+                 (KCheckTokenPass, Some [220; 5; 1], 3%nat); (KCheckTokenPass, None, 3%nat);
+                 (KCheckTokenPass, None, 3%nat); (KUseToken, Some [220; 1; 1], 0%nat)].
+Proof. vm_compute. reflexivity. Qed.
+
+(* C11_heard_not_removed: if the poll sees bus activity (new bytes in the receive buffer) while the pass
+   is supervised, nothing is transmitted and nobody is removed, for every input: a complete telegram
+   takes the station to ActiveIdle (from where the buffered telegrams are handled: the state afterwards
+   is ActiveIdle, UseToken or ListenToken); an incomplete telegram restarts the timer; undecodable
+   bytes are dropped. *)
+Theorem C11_heard_not_removed : forall (A : Type) (ops : app_ops A) (f : fdl) (now : Z) (pin : phy_in) (apps : list A)
+                                       (f' : fdl) (o : phy_out) (a : list A) (c : list call) (att : attempt),
+  f_state f = CheckTokenPass att -> 0 <= slot_time (f_p f) ->
+  tx_busy pin = false -> predicted f now = false -> (f_pending f < length (rx pin))%nat ->
+  poll ops f now pin apps = Ok (f', o, a, c) ->
+  tx o = None /\ c = [] /\ ring_witnessed (f_ring f) (f_ring f') /\
+  match DecodeSpec.decode_spec (rx pin) with
+  | Accept _ _ => heard_kind (f_state f')
+  | Reject => f_state f' = CheckTokenPass att /\ f_ring f' = f_ring f /\ rx_left o = []
+  | NeedMore => f_state f' = CheckTokenPass att /\ f_ring f' = f_ring f /\ rx_left o = rx pin
+  end.
+Proof. exact heard_not_removed. Qed.
+Print Assumptions C11_heard_not_removed.
+
+(* C11_accept_second_offer: two-poll history.  A ring member idling without pending status request gets
+   the token from a stranger sa (not itself, not PS, not the pending one) as the only new telegram:
+   the offer is only recorded (nothing transmitted, ring view unchanged).  In the next poll that finds
+   a token: the same stranger again - accepted (UseToken); a different stranger sb - sb replaces the
+   pending sa (so, by the first part, a later offer of sa is again only recorded). *)
+Theorem C11_accept_second_offer : forall (A : Type) (ops : app_ops A) (f : fdl) (now1 : Z) (apps : list A)
+    (nps : option Z) (cc sa : Z) (f1 : fdl) (o1 : phy_out) (a1 : list A) (c1 : list call),
+  f_conn f = ConnOnline -> f_state f = ActiveIdle None nps cc ->
+  (forall l, f_lba f = Some l -> l < now1) -> (f_pending f < 3)%nat -> 0 < token_lost_timeout (f_p f) ->
+  sa <> ts f -> sa <> r_ps (f_ring f) -> nps <> Some sa ->
+  poll ops f now1 (mkPhyIn false (encode_token (ts f) sa)) apps = Ok (f1, o1, a1, c1) ->
+  (f_state f1 = ActiveIdle None (Some sa) 0 /\ f_ring f1 = f_ring f /\ o1 = mkPhyOut None [] /\ a1 = apps /\ c1 = []) /\
+  forall now2, now1 < now2 ->
+    (forall f2 o2 a2 c2, poll ops f1 now2 (mkPhyIn false (encode_token (ts f) sa)) a1 = Ok (f2, o2, a2, c2) ->
+       f_state f2 = UseToken now2 None false /\ o2 = mkPhyOut None [] /\ c2 = []) /\
+    (forall sb f2 o2 a2 c2, sb <> sa -> sb <> ts f -> sb <> r_ps (f_ring f) ->
+       poll ops f1 now2 (mkPhyIn false (encode_token (ts f) sb)) a1 = Ok (f2, o2, a2, c2) ->
+       f_state f2 = ActiveIdle None (Some sb) 0 /\ f_ring f2 = f_ring f /\ o2 = mkPhyOut None [] /\ c2 = []).
+Proof. exact accept_second_offer. Qed.
+Print Assumptions C11_accept_second_offer.
+
